@@ -334,3 +334,6 @@ for _p, _rules, _what in (("C01", _SOLVE_PATH, "solve"), ("C10", _SOLVE_PATH, "s
     if _added:
         PROPERTIES[_p]["explanation"] += (f" Data-path closure: additionally every rule that decides code on the path of {_what} "
                                           f"({', '.join(sorted(r.rule_name for r in _added))}).")
+PROPERTIES["C19"].setdefault("filter", {})["R13.ALG1"] = lambda o: o.key.startswith(("AX6", "R13.ALG1"))
+PROPERTIES["C13"]["filter"]["R8.EFF"] = lambda o: o.key.startswith(("EFF1", "EFF2:user-functions-deep-copied"))
+PROPERTIES["C13"]["explanation"] += " Every function of the user's model is carried into the internal model (deep copy of model.functions as a whole: targets may name any of them)."
